@@ -42,6 +42,9 @@ CLAIMS = {
  'C15': dict(technique="runtime monitoring: two-process wrapper executed by vsim; an online exactly-once automaton over the recorded send/receive events (unique payloads) across all schedules of producer/consumer willingness",
              text="Exploration: SyncFlag and Mailbox x tx/rx delays 0..3 x consumer/producer styles; all 32 input valuations in every reached joint state (budget), random runs at four densities, bounded drain.",
              ref="2 C15"),
+ 'C16': dict(technique="runtime monitoring: compiled wrappers with marker outputs executed by vsim; per-clock monitors check closed-form timing specifications (resume clock, shift by n, run lengths, pulse spacing, saturating counter model)",
+             text="Exploration: wait_for/Waiter n=0..20 constant and run-time, Durations, delay lines 0..6, counters, ClockDivider periods 2..9 x options (power-up vs reset), ToggleSignal durations 1..5 and run-time, debounce closure over input sequences.",
+             ref="2 C16"),
  'C13': dict(technique="runtime monitoring: fresh interpreter per creation order with post-hoc assertions on identity / issubclass / isinstance of the lazily created classes and on view write-through; nested views in emitted logic executed by vsim",
              text="Exploration: seeded creation orders (widths 1..40, arrays, 4 qualifiers, 3 directions) in fresh processes; random nested view chains as read sources and write targets of compiled entities.",
              ref="2 C13"),
